@@ -70,6 +70,14 @@ func renderObsProcs(sc *Scenario, meta *c20Meta) {
 					q = fmt.Sprintf("DECLARE cnt%d FUNCTION () AS BEGIN RETURN (SELECT COUNT(*) FROM %s); END; PRINT cnt%d();", i, t, i)
 				case 4:
 					q = fmt.Sprintf("DECLARE cur%d CURSOR FOR SELECT id FROM %s; OPEN cur%d; VAR @c%d; FETCH cur%d INTO @c%d; CLOSE cur%d; DISPOSE CURSOR cur%d;", i, t, i, i, i, i, i, i)
+				case 6:
+					q = fmt.Sprintf("SELECT COUNT(*) FROM CSV(',', `%s.csv`);", t)
+				case 7:
+					q = fmt.Sprintf("SHOW FIELDS FROM %s;", t)
+				case 8:
+					q = fmt.Sprintf("SET @@WITHOUT_NULL TO FALSE; SELECT COUNT(*) FROM %s;", t)
+				case 9:
+					q = fmt.Sprintf("VAR @v%d := (SELECT MAX(n) FROM %s); SELECT 1 FROM %s LIMIT 1;", i, t, t)
 				default:
 					q = fmt.Sprintf("SELECT COUNT(*) FROM `./%s.csv`;", t)
 				}
@@ -138,7 +146,7 @@ func (c20) Gen(seed uint64, tier string) *Scenario {
 					ops = append(ops, ObsOp{Kind: "sel", Table: tb, Form: r.Pick(0, 0, 0, 1, 2, 3, 4)})
 				case 3:
 					if r.Bool(0.5) {
-						ops = append(ops, ObsOp{Kind: "touch", Table: tb, Form: r.Intn(6)})
+						ops = append(ops, ObsOp{Kind: "touch", Table: tb, Form: r.Intn(10)})
 					} else {
 						ops = append(ops, ObsOp{Kind: "noop", Table: tb, Form: r.Intn(2)})
 					}
